@@ -790,6 +790,7 @@ def emit_fn(out, entry, mode, stats, canary=False):
         for b in entry.block("afterstmt"):
             k = int(b.arg.split()[0])
             ends = []
+            starts = []
             lo_, hi_ = blo, last
             m_in = re.search(r"in loop (\d+)", b.arg)
             if m_in:
@@ -798,6 +799,19 @@ def emit_fn(out, entry, mode, stats, canary=False):
                 if j_ < 1 or j_ > len(loops):
                     raise LostAnchor(f"{entry.id}: loop#{j_} not found ({len(loops)} loops)")
                 lo_, hi_ = loops[j_ - 1][1] + 1, br[loops[j_ - 1][1]]
+                lo_, hi_ = loops[j_ - 1][1] + 1, br[loops[j_ - 1][1]]
+            m_arm = re.search(r'in arm "(.*)"\s*(?:#(\d+))?$', b.arg)
+            if m_arm:
+                # the statements of the block of the match arm / branch whose header is the snippet
+                r_ = find_snippet(sf, blo, last, m_arm.group(1).replace('\\"', '"'), int(m_arm.group(2) or 1))
+                if r_ is None:
+                    raise LostAnchor(f"{entry.id}: arm {m_arm.group(1)!r} not found")
+                j_ = r_[1] + 1
+                while toks[j_].kind in (WS, COMMENT):
+                    j_ += 1
+                if toks[j_].text != "{":
+                    raise LostAnchor(f"{entry.id}: arm {m_arm.group(1)!r} is not followed by a block")
+                lo_, hi_ = j_ + 1, br[j_]
             i = lo_
             last_ = hi_
             start = None
@@ -817,13 +831,30 @@ def emit_fn(out, entry, mode, stats, canary=False):
                         nxt = toks[n_].text if n_ < last_ else "}"
                         if nxt not in ("else", ";", ".", "?"):
                             ends.append(j)
+                            starts.append(start)
                             start = None
                     i = j + 1
                     continue
                 if t.kind == PUNCT and t.text == ";":
                     ends.append(i)
+                    starts.append(start)
                     start = None
                 i += 1
+            # `expect "prefix"`: the statement meant begins with these tokens. If statement k does not (statements were inserted,
+            # removed or reordered), the one statement of the scope that does is taken; none or several: the anchor is lost.
+            # So an edit of the REST of the statement keeps the anchor, and a harmless reshuffle cannot misplace a proof hint.
+            m_ex = re.search(r'expect "((?:[^"\\]|\\.)*)"', b.arg)
+            if m_ex:
+                want = re.sub(r"\s+", "", m_ex.group(1).replace('\\"', '"'))
+
+                def begins(n_):
+                    txt = "".join(toks[x].text for x in range(starts[n_], ends[n_] + 1) if toks[x].kind not in (WS, COMMENT))
+                    return txt.startswith(want)
+                if not (1 <= k <= len(ends) and begins(k - 1)):
+                    cand = [n_ for n_ in range(len(ends)) if begins(n_)]
+                    if len(cand) != 1:
+                        raise LostAnchor(f"{entry.id}: statement #{k} does not begin with {m_ex.group(1)!r} and {len(cand)} statements of the scope do")
+                    k = cand[0] + 1
             if k < 1 or k > len(ends):
                 raise LostAnchor(f"{entry.id}: top-level statement #{k} not found ({len(ends)} statements)")
             edits.append((ends[k - 1] + 1, ends[k - 1] + 1, "\n" + b.text().rstrip("\n") + "\n", vc_origin(b)))
